@@ -99,11 +99,17 @@ def rand_hard_constraint(rng, seq, kinds=None):
     raise ValueError(k)
 
 
+def mkloc(t):
+    """what the user hands over as a location: by default the tuple itself; the C05 child replaces this by a function
+    returning one dnachisel Location object per distinct triple (a user who keeps Location objects around)"""
+    return t
+
+
 def build_constraint(d):
     import random
     import dnachisel as dc
     k = d["kind"]
-    loc = tuple(d["location"]) if "location" in d else None
+    loc = mkloc(tuple(d["location"])) if "location" in d else None
     if k == "keep":
         if d.get("max_edits_percent") is not None:
             return dc.AvoidChanges(location=loc, max_edits_percent=d["max_edits_percent"])
@@ -160,10 +166,45 @@ def restr_tokens(restrs):
     return " ".join("%d:%d:%s" % (a, b, ",".join(vs)) for a, b, vs in restrs)
 
 
+_DIFF = {}
+
+
+def table_specific_codons(table):
+    """codons that the named genetic table reads differently from the Standard one (amino acid or stop status)"""
+    if table not in _DIFF:
+        from Bio.Data import CodonTable
+        std = CodonTable.unambiguous_dna_by_name["Standard"]
+        t = CodonTable.unambiguous_dna_by_name[table]
+        cods = ["".join(c) for c in __import__("itertools").product("ACGT", repeat=3)]
+
+        def rd(tb, c):
+            return "*" if c in tb.stop_codons else tb.forward_table[c]
+        _DIFF[table] = (sorted(c for c in cods if rd(std, c) != rd(t, c)), sorted(t.start_codons))
+    return _DIFF[table]
+
+
+def plant_coding_region(rng, seq, d):
+    """rewrite the coding region of cds description d inside seq: a start codon of the table first, then codons
+    favouring those the table reads differently from the Standard one"""
+    a, b, st = d["location"]
+    diff, starts = table_specific_codons(d["table"])
+    k = (b - a) // 3
+    cods = [rng.choice(starts)]
+    for _ in range(k - 1):
+        cods.append(rng.choice(diff) if (diff and rng.random() < 0.6) else rand_seq(rng, 3))
+    sub = "".join(cods)
+    if st == -1:
+        sub = rc(sub)
+    return seq[:a] + sub + seq[b:]
+
+
 def rand_problem(rng, nmin=3, nmax=12, kmax=4, kinds=None):
     n = rng.randint(nmin, nmax)
     seq = rand_seq(rng, n)
     descs = [rand_hard_constraint(rng, seq, kinds) for _ in range(rng.randint(0, kmax))]
+    for d in descs:
+        if d["kind"] == "cds" and rng.random() < 0.35:
+            seq = plant_coding_region(rng, seq, d)
     return seq, descs
 
 
